@@ -64,3 +64,23 @@ Theorem C10_translated_make_dele_is_model :
   forall ed_pk ok, ok_opt (gen_make_dele ed_pk ok) = ok_opt (make_dele ed_pk ok).
 Proof. exact gen_make_dele_model. Qed.
 Print Assumptions C10_translated_make_dele_is_model.
+
+(* ---- the constructors AS TRANSLATED FROM THE SOURCE on this run: LongTermKey::new (the identity is
+   computed from the seed alone: the signer is the seed, the SRV value the hash of its public key) and
+   Responder::new (EVERY responder draws a fresh online key — the parameter online_seed — and has it
+   certified by the long-term key before anything is served; the request list starts empty and the
+   tree new) ---- *)
+Require Import RV.Model.Server RV.Proofs.CodeCtor.
+
+Theorem C10_translated_ltk_new_is_model :
+  forall H, HashLen H -> forall ed_pk seed,
+  gen_ltk_new ed_pk H seed = Ok (seed, ltk_srv_value H ed_pk seed).
+Proof. exact gen_ltk_new_model. Qed.
+Print Assumptions C10_translated_ltk_new_is_model.
+
+Theorem C10_translated_responder_new_is_model :
+  forall ed_pk ed_sign v lt online_seed,
+  ok_opt (gen_responder_new online_seed ed_pk ed_sign v tt lt)
+  = ok_opt (responder_new ed_pk ed_sign v lt online_seed).
+Proof. exact gen_responder_new_model. Qed.
+Print Assumptions C10_translated_responder_new_is_model.
